@@ -185,7 +185,11 @@ func NewEnv() (*Env, error) {
 	return e, nil
 }
 
-func (e *Env) Close() { os.RemoveAll(e.Scratch) }
+func (e *Env) Close() {
+	if os.Getenv("VERIF_KEEP_SCRATCH") == "" { // debugging aid: keep the materialised projects
+		os.RemoveAll(e.Scratch)
+	}
+}
 
 // NewRoot creates a fresh working directory for one scenario.
 func (e *Env) NewRoot() string {
